@@ -51,7 +51,7 @@ MDNS = vsim.MDNS_ADDR
 
 CFG = dict(ann=[350, 575, 800], upd=[0, 225, 450], bye=[0, 125, 250], maxDelay=100, qLo=20, qHi=120,
            qOff=[0, 1000, 5000, 14000], dupQ=999, respBefore=1000, respAfter=1200, regDelay=350,
-           ptrMinTtl=1125, cleanup=10000, refresh1=750, refresh2=850, refreshEarly=10000, refreshWin=25000)
+           ptrMinTtl=1125, cleanup=10000, refresh1=750, refresh2=850, refreshEarly=10000, refreshWin=30000)
 
 
 # ------------------------------------------------------------------------------------------
@@ -1029,10 +1029,12 @@ def monitors(tr, endT, cfg=CFG):
                     continue
                 e_s = eff_ttl(ttl, cfg) // 1000
                 for second in (False, True):
-                    # the browser existed when the record reached 75 % of its life: windows around 75 % / 85 % (10 s + 999 ms
-                    # early: "avoid churn" keeps a schedule within 10 s; 25 s late: rate limit / start-up phase); it started
-                    # later: its 3rd / 4th start-up question (the record is stale by then and is not listed)
-                    if tb <= x[0] + cfg["refresh1"] * e_s:
+                    # the browser had finished its start-up phase before the earliest possible schedule of the 75 % query
+                    # (75 % - 10 s): windows around 75 % / 85 % (10 s + 999 ms early: "avoid churn" keeps a schedule within 10 s
+                    # of the new 75 % point — on either side; 30 s late: kept schedule + two passes each at most 10 s late);
+                    # it started later, or so shortly before that the 75 % point falls into its start-up phase (no refresh pass
+                    # runs then): its 3rd / 4th start-up question (the record is stale by then and is not listed)
+                    if tb + cfg["qHi"] + cfg["qOff"][3] + cfg["refreshEarly"] <= x[0] + cfg["refresh1"] * e_s:
                         due = x[0] + (cfg["refresh2"] if second else cfg["refresh1"]) * e_s
                         a, hi = due - cfg["refreshEarly"] - cfg["dupQ"], due + cfg["refreshWin"]
                     else:
